@@ -217,3 +217,114 @@ def ip_match_roundtrip(fam, args):
         bad = v2 != a
     r.update(violated=bad, detail="texts=%r" % (r["texts"],), misses=misses)
     return r
+
+
+@register("ip_preserve")
+def ip_preserve(fam, args):
+    """C04/C05: membership in every configured prefix/network and the host bits must be preserved."""
+    import ipaddress
+    family, cfg, a, b = args["family"], args["cfg"], args["a"], args.get("b")
+    w = 32 if family == 4 else 128
+    B = min(cfg.get("B") or 0, w)
+    reqs = [["a", a]] + ([["a", b]] if b is not None else [])
+    r = ip_requests(fam, dict(args, requests=reqs))
+    out = r["fresh"]
+    if any(isinstance(x, str) for x in out):
+        return dict(violated=True, observed=out, detail="anonymize raised", misses=r["misses"])
+    why = []
+    if family == 4:
+        pf = cfg.get("prefixes")
+        pfs = (list(fam.ip.IpAnonymizer.IPV4_CLASSES) + list(fam.ip.IpAnonymizer.RFC_1918_NETWORKS)) if pf is None else list(pf)
+        # the property's own default list (classes A-E + RFC 1918), independent of the implementation constant
+        if pf is None:
+            pfs = ["0.0.0.0/1", "128.0.0.0/2", "192.0.0.0/3", "224.0.0.0/4", "10.0.0.0/8", "172.16.0.0/12", "192.168.0.0/16"]
+        pfs += list(cfg.get("networks") or [])
+        for p in pfs:
+            n = ipaddress.ip_network(p)
+            if (ipaddress.IPv4Address(a) in n) != (ipaddress.IPv4Address(out[0]) in n):
+                why.append("membership in %s changed" % p)
+    if B and (a & ((1 << B) - 1)) != (out[0] & ((1 << B) - 1)):
+        why.append("host bits changed")
+    if b is not None and B < w and (a >> B) == (b >> B) and (out[0] >> B) != (out[1] >> B):
+        why.append("leading image bits depend on host bits")
+    return dict(violated=bool(why), observed=out, detail="; ".join(why), misses=r["misses"])
+
+
+@register("is_mask")
+def is_mask(fam, args):
+    v = args["value"]
+    an = fam.ip.IpAnonymizer("S")
+    if v is None:
+        vals = [(1 << k) - 1 for k in range(33)] + [0xFFFFFFFF ^ ((1 << k) - 1) for k in range(33)] + [5, 0x00FF00FF, 0x80000001]
+        bad = [x for x in vals if bool(an._is_mask(x)) != _is_mask_spec(x)]
+        return dict(violated=bool(bad), observed=bad[:5], detail="spot check of the 66 constants and 3 non-masks")
+    got = bool(an._is_mask(v))
+    return dict(violated=got != _is_mask_spec(v), observed=got, detail="_is_mask(%d)=%r spec=%r" % (v, got, _is_mask_spec(v)))
+
+
+@register("ip_untouched")
+def ip_untouched(fam, args):
+    """C05-H2: one token through _anonymize_match: kept verbatim iff mask-shaped or preserved, else replaced by the image."""
+    import ipaddress
+    cfg, a = args["cfg"], args["a"]
+
+    def run():
+        X = _mk_ip(fam, cfg, 4)
+        ref = _mk_ip(fam, cfg, 4)
+        t0 = str(ipaddress.IPv4Address(a))
+        try:
+            t1 = fam.ip._anonymize_match(X, t0, False)
+            return dict(texts=[t0, t1], value=int(ipaddress.IPv4Address(t1)), image=ref.anonymize(a))
+        except Exception as e:
+            return dict(texts=[t0, "EXC:%s" % type(e).__name__], value=None, image=None)
+    r, misses = _with_md5(fam, args, run)
+    nets = [ipaddress.ip_network(n) for n in (cfg.get("networks") or [])]
+    keep = _is_mask_spec(a) or any(ipaddress.IPv4Address(a) in n for n in nets)
+    if r["value"] is None:
+        bad = True
+    elif keep:
+        bad = r["texts"][1] != r["texts"][0]
+    else:
+        bad = r["value"] != r["image"] or (r["texts"][1] == r["texts"][0] and r["image"] != a)
+    r.update(violated=bad, detail="texts=%r keep=%r" % (r["texts"], keep), misses=misses)
+    return r
+
+
+@register("ip_dump")
+def ip_dump(fam, args):
+    """C17: two anonymize requests (optionally an undo), then dump_to_file: every request listed with its replacement,
+    every listed pair agrees with a fresh anonymizer, no original / replacement listed twice."""
+    import ipaddress
+    family, cfg, a, b = args["family"], args["cfg"], args["a"], args["b"]
+
+    def run():
+        X = _mk_ip(fam, cfg, family)
+        try:
+            ra = X.anonymize(a)
+            rb = X.anonymize(b)
+            if args.get("undo"):
+                X.deanonymize(ra)
+            out = io.StringIO()
+            X.dump_to_file(out)
+        except Exception as e:
+            return dict(lines=["EXC:%s" % type(e).__name__], pairs=[], detail="raised", violated=True)
+        lines = out.getvalue().splitlines()
+        pairs = []
+        for l in lines:
+            x, y = l.split("\t")
+            pairs.append([int(ipaddress.ip_address(x)), int(ipaddress.ip_address(y))])
+        why = []
+        for x, y in ((a, ra), (b, rb)):
+            if [x, y] not in pairs:
+                why.append("request %d -> %d not listed" % (x, y))
+        xs = [p[0] for p in pairs]
+        ys = [p[1] for p in pairs]
+        if len(set(xs)) != len(xs) or len(set(ys)) != len(ys):
+            why.append("an original or a replacement is listed twice")
+        for x, y in pairs:
+            if _mk_ip(fam, cfg, family).anonymize(x) != y:
+                why.append("listed pair %d -> %d disagrees with the mapping function" % (x, y))
+        return dict(lines=lines, pairs=pairs, detail="; ".join(why), violated=bool(why))
+    r, misses = _with_md5(fam, args, run)
+    r["misses"] = misses
+    return r
